@@ -409,7 +409,8 @@ func (e *eventHandlerStore) off(eventName string, handler ...reflect.Value) {
 	e.mu.Lock()
 	defer e.mu.Unlock()
 
-	if handler == nil {
+	// No handler given: remove all handlers of the event. (The public `OffEvent` methods pass an empty, non-nil slice.)
+	if len(handler) == 0 {
 		delete(e.events, eventName)
 		delete(e.eventsOnce, eventName)
 		return
